@@ -343,6 +343,14 @@ def check_sched(pid, spec, args):
             "regression_replays": regress["summary"],
             "unconfirmed_anomalies": len(unconfirmed),
         }
+        if spec["engine"] == "storage":
+            for k in ("scheduler_steps", "task_switches_at_contended_decisions", "contended_decisions", "tasks_created", "policies", "simulated_time_s"):
+                cov.pop(k, None)
+            for smp in cov["samples"]:
+                for k in ("policy", "steps", "switches"):
+                    smp.pop(k, None)
+            cov["fault_kinds_fired"] = {k: v for k, v in cov["counters"].items() if any(t in k for t in ("inject", "crash", "torn", "negative_", "hostile_", "_byte", "_trunc", "frame_", "wrongkey", "readerr", "mf_"))}
+            cov["simulated_time_note"] = "storage-sim has no clock-dependent logic; time is not simulated"
         zero_probes = [k for k in spec.get("expected_probes", []) if not (cov["probes"].get(k) or cov["counters"].get(k) or cov["faults_fired"].get(k))]
         if zero_probes:
             cov["probes_stuck_at_zero"] = zero_probes
